@@ -77,7 +77,7 @@ UNIT = dict(
     frame=[
         # the select! shim takes a result that has arrived; that rests on the result arm being examined before the hedge timer:
         # otherwise a poll that finds a successful response AND an expired delay may start another attempt instead of resolving
-        dict(name="an_available_response_is_never_passed_over_for_an_expired_hedge_delay", tags=["C12"], select_timer_last=r"\bdelay_fut\b|\bsleep(_until)?\s*\(",
+        dict(name="an_available_response_is_never_passed_over_for_an_expired_hedge_delay", tags=["C12", "C20"], select_timer_last=r"\bdelay_fut\b|\bsleep(_until)?\s*\(",
              glob="crates/tower-resilience-hedge/src/lib.rs", violation=True),
     ],
     types=[
